@@ -6,6 +6,7 @@ from ... import ir
 from ...utils.bitfun import rotr, rotl, to_signed, to_unsigned
 from ...utils.bitfun import clz, ctz, popcnt, sign_extend
 from ..util import make_int
+from ._base_instance import WasmTrapException
 
 
 class Unreachable(RuntimeError):
@@ -71,60 +72,45 @@ def i64_popcnt(v: ir.i64) -> ir.i64:
 
 
 # Conversions:
+def truncate(value: float, lower_limit, upper_limit) -> int:
+    """Truncate to integer, trap when the integer is not within limits"""
+    if math.isnan(value):
+        raise WasmTrapException("invalid conversion to integer")
+    if math.isinf(value) or not lower_limit <= int(value) <= upper_limit:
+        raise WasmTrapException("integer overflow")
+    return int(value)
+
+
 def i32_trunc_f32_s(value: ir.f32) -> ir.i32:
-    if math.isinf(value):
-        return 0  # undefined
-    else:
-        return int(value)
+    return truncate(value, MIN_I32, MAX_I32)
 
 
 def i32_trunc_f32_u(value: ir.f32) -> ir.i32:
-    if math.isinf(value):
-        return 0  # undefined
-    else:
-        return make_int(value, 32)
+    return make_int(truncate(value, MIN_U32, MAX_U32), 32)
 
 
 def i32_trunc_f64_s(value: ir.f64) -> ir.i32:
-    if math.isinf(value):
-        return 0  # undefined
-    else:
-        return int(value)
+    return truncate(value, MIN_I32, MAX_I32)
 
 
 def i32_trunc_f64_u(value: ir.f64) -> ir.i32:
-    if math.isinf(value):
-        return 0  # undefined
-    else:
-        return make_int(value, 32)
+    return make_int(truncate(value, MIN_U32, MAX_U32), 32)
 
 
 def i64_trunc_f32_s(value: ir.f32) -> ir.i64:
-    if math.isinf(value):
-        return 0  # undefined
-    else:
-        return int(value)
+    return truncate(value, MIN_I64, MAX_I64)
 
 
 def i64_trunc_f32_u(value: ir.f32) -> ir.i64:
-    if math.isinf(value):
-        return 0  # undefined
-    else:
-        return make_int(value, 64)
+    return make_int(truncate(value, MIN_U64, MAX_U64), 64)
 
 
 def i64_trunc_f64_s(value: ir.f64) -> ir.i64:
-    if math.isinf(value):
-        return 0  # undefined
-    else:
-        return int(value)
+    return truncate(value, MIN_I64, MAX_I64)
 
 
 def i64_trunc_f64_u(value: ir.f64) -> ir.i64:
-    if math.isinf(value):
-        return 0  # undefined
-    else:
-        return make_int(value, 64)
+    return make_int(truncate(value, MIN_U64, MAX_U64), 64)
 
 
 # saturated trunc
